@@ -13,6 +13,8 @@ sys.path.insert(0, VERIF)
 REPO = os.environ.get("PPSIM_REPO", "/repo")
 sys.path.insert(0, REPO)
 import coverage
+import logging
+logging.disable(logging.CRITICAL)
 
 prop = sys.argv[1]
 n = int(sys.argv[2]) if len(sys.argv) > 2 and sys.argv[2].isdigit() else 150
